@@ -215,6 +215,30 @@ Proof.
 Qed.
 Print Assumptions C13_wrun_fixed.
 
+(** Commit order, over ALL crash points: in the repaired model (id transaction committed before the
+    entity transaction, as the code does) every (identifier, internal id) pair carried by a durable
+    entity version or reference key has its durable URI<->id record - after every op sequence,
+    including writes during which the process dies before the id commit, between the two commits or
+    after both ([HCrashWrite _ _ _ _ pt] for every pt, through StoreEntities, ExecuteTransaction and
+    contextual stores), clean restarts and crashes anywhere, every lease size >= 1. *)
+Theorem C13_stored_ids_durable : forall L dss ops, 1 <= L ->
+  let w := fst (wrun v_fixed L ops (w_setup v_fixed L dss)) in
+  incl (wstored w) (disk (wid w)).
+Proof.
+  intros L dss ops HL w. destruct (wrun_strong L HL ops _ (winv_setup L HL dss)) as ((_ & _ & _ & H) & _). exact H.
+Qed.
+Print Assumptions C13_stored_ids_durable.
+
+(** refutation of the swapped order (entity transaction first): a crash between the two commits
+    leaves a stored entity whose internal id has no URI record; the identifier then gets a second id.
+    With the code's order the same histories are fine at every crash point. *)
+Theorem C13_refuted_swapped_commit_order :
+  stored_durable (fst (wrun v_swapped L_go wit_crash_min (w_setup v_swapped L_go dss_ab))) = false
+  /\ map (fun pt => (verdict v_fixed (wit_crash pt), verdict v_swapped (wit_crash pt))) [0; 1; 2]%nat
+     = [(true, true); (true, false); (true, true)].
+Proof. vm_compute. split; reflexivity. Qed.
+Print Assumptions C13_refuted_swapped_commit_order.
+
 (** the hypothesis of C13_agree_implies_spec is met by the witness histories and is needed: an
     assertion after the last dump is judged against tables that cannot contain it *)
 Example C13_ends_dump_nonvacuous :
@@ -228,8 +252,8 @@ Proof. vm_compute. repeat split; reflexivity. Qed.
 (** non-vacuity / regression witnesses: the executable spec separates the variants on the witness
     histories that lib/props/c13.py replays on the real code *)
 Example C13_nonvacuous_verdicts :
-  map (fun w => (verdict v_current w, verdict v_fixed w)) [wit_alias; wit_discarded; wit_poison]
-  = [(false, true); (false, true); (false, true)].
+  map (fun w => (verdict v_current w, verdict v_fixed w)) [wit_alias; wit_discarded; wit_poison; wit_lost]
+  = [(false, true); (false, true); (false, true); (false, true)].
 Proof. vm_compute. reflexivity. Qed.
 
 Example C13_nonvacuous_roundtrip :
